@@ -157,6 +157,8 @@ def eval_top_down(
 
     # Nodes evaluated concurrently can share a child: the updates of its mask must not interleave
     masks_lock = threading.Lock()
+    if _verif_hooks is not None:
+        masks_lock = _verif_hooks.trace_lock(masks_lock)
 
     def eval_backward(n):
         if _verif_hooks is not None:
